@@ -1,3 +1,4 @@
+#define _FILE_OFFSET_BITS 64
 /* c06.c — C06: spec-valid files from an independent writer decode to the
  * values stored in them.  Files come from /verif/ref (ref_pq_write); carquet
  * must return exactly the definition levels, repetition levels and values
@@ -200,6 +201,27 @@ static void enumerate(void) {
                   free(vb); carquet_column_reader_free(cr); }
               carquet_reader_close(rd); }
           free(x); ref_buf_free(&img); ref_arena_free(&RA);
+      } }
+    /* chunks at file offsets beyond 2^31 and 2^32: a sparse file with a hole in front of the second row group */
+    mc_stage("chunks-beyond-2GiB-and-4GiB.sparse-files");
+    { static const uint64_t GAP[] = { ((uint64_t)1 << 31) - 300, ((uint64_t)1 << 31) + 4096, ((uint64_t)1 << 32) - 300, ((uint64_t)1 << 32) + 4096 };
+      for (int gi = 0; gi < 4; gi++) for (int enc = 0; enc < 3; enc++) for (int io = 1; io <= 2; io++) {
+          if (!mc_next()) continue;
+          rfile_t f; memset(&f, 0, sizeof f); f.ncols = 2; f.N = 12; f.nrg = 2; f.codec = enc == 2 ? CODEC_SNAPPY : CODEC_NONE; f.crc = true; f.dict_offset_present = enc != 0; f.pattern = enc ? 0 : 3; f.col[0].ptype = PT_INT32; f.enc[0] = enc ? ENC_RLE_DICT : ENC_PLAIN; f.col[1].ptype = PT_BYTE_ARRAY; f.col[1].opt = 1; f.mask[1] = 0x124; f.enc[1] = enc ? ENC_PLAIN_DICT : ENC_PLAIN;
+          mc_desc("c06:sparse;hole=%llu;enc=%d;io=%s", (unsigned long long)GAP[gi], enc, io == 1 ? "stdio" : "mmap"); mc_case_key(mc_mix(0xc06d, ((uint64_t)gi << 8) | ((uint64_t)enc << 2) | (uint64_t)io)); mc_nontrivial(); mc_budget_ms(60000);
+          ref_buf img; ref_buf_init(&img); static ref_coldata cols[8]; int np = 0; ref_pq_gap_before_rg = 1; ref_pq_gap_bytes = GAP[gi]; int wrc = rf_build(&RA, &f, &img, NULL, 0, &np, cols); ref_pq_gap_before_rg = -1; if (wrc) mc_harness_error("reference writer failed (sparse)");
+          char path[300]; const char* sd = getenv("VERIF_SCRATCH"); snprintf(path, sizeof path, "%s/c06_sparse_%d.parquet", sd ? sd : "/dev/shm", (int)getpid());
+          FILE* pf = fopen(path, "wb"); if (!pf || fwrite(img.p, 1, ref_pq_gap_pos, pf) != ref_pq_gap_pos || fseeko(pf, (off_t)GAP[gi], SEEK_CUR) || fwrite(img.p + ref_pq_gap_pos, 1, img.n - ref_pq_gap_pos, pf) != img.n - ref_pq_gap_pos || fclose(pf)) { mc_count("sparse.file-not-writable", 1); unlink(path); ref_buf_free(&img); ref_arena_free(&RA); continue; }
+          carquet_error_t err = CARQUET_ERROR_INIT; carquet_reader_options_t o; carquet_reader_options_init(&o); o.use_mmap = io == 2; carquet_reader_t* rd = carquet_reader_open(path, &o, &err); unlink(path);
+          if (!rd) mc_fail("sparse.open-failed", "hole of %llu bytes: code %d %s", (unsigned long long)GAP[gi], err.code, err.message);
+          else { for (int g = 0; g < 2; g++) for (int c = 0; c < 2; c++) { const ref_coldata* cd = &cols[g * 2 + c]; carquet_column_reader_t* cr = carquet_reader_get_column(rd, g, c, &err); char key[96]; snprintf(key, sizeof key, "sparse.chunk-beyond-%s.%s", GAP[gi] >= ((uint64_t)1 << 32) - 300 ? "4GiB" : "2GiB", enc ? "dictionary" : "plain");
+                  if (!cr) { mc_fail(key, "row group %d column %d: get_column failed: %d %s", g, c, err.code, err.message); continue; }
+                  size_t vs = c ? sizeof(carquet_byte_array_t) : 4; uint8_t* vb = mc_exact(NULL, vs * 13); int16_t db[13]; int64_t got = carquet_column_read_batch(cr, vb, 13, db, NULL); bool ok = got == cd->nlevels;
+                  if (ok && c == 0) ok = !memcmp(vb, cd->fixed, 4 * (size_t)cd->nvalues); if (ok && c == 1) { carquet_byte_array_t* ba = (carquet_byte_array_t*)vb; for (int64_t i = 0; ok && i < cd->nvalues; i++) ok = (uint32_t)ba[i].length == cd->strs[i].n && (!ba[i].length || !memcmp(ba[i].data, cd->strs[i].p, (size_t)ba[i].length)); }
+                  if (!ok) mc_fail(key, "row group %d (%s the hole of %llu bytes) column %d: read_batch returned %lld of %lld entries or other values", g, g ? "behind" : "before", (unsigned long long)GAP[gi], c, (long long)got, (long long)cd->nlevels);
+                  free(vb); carquet_column_reader_free(cr); }
+              carquet_reader_close(rd); }
+          ref_buf_free(&img); ref_arena_free(&RA);
       } }
     /* pages whose values repeat with a short period, compressed by a reference compressor that emits real matches: copy distances of
      * width x period bytes (1..48) with long lengths, in Snappy and LZ4 */
